@@ -18,6 +18,7 @@
                         ctx deadline      LTimeout     (delete own key; m.lock.Unlock(); error)
                         own key vanished  LExpired     (ErrSessionExpired; m.lock.Unlock(); error)
        critical section                   LCs ...      (the API handler's accesses to the store)
+                                          LFault       (the next access fails: handler ends with 5xx)
        m.m.Unlock(ctx)                    LEtcdUnlock  (delete own key)
        m.lock.Unlock()                    LLocalUnlock
     plus a fault step of the member (not of the request):
@@ -52,6 +53,9 @@ Inductive result :=
 | ROk (code : Z) (v : Z)             (* successful mutation, X-Config-Version v *)
 | RFail (code : Z)                   (* 409 / 400 / 404 of a mutation *)
 | RRead (o : option (string * string))  (* GET: 200 with (kind, body) or 404 *)
+| RErr (applied : bool)              (* a cluster operation inside the handler failed (ClusterPanic, 5xx); the
+                                        handler stopped there: [applied] = its object write had already happened,
+                                        the version was NOT written *)
 | RNoopDone.
 
 Definition objects := list (string * (string * string)).   (* name -> (kind, body) *)
@@ -134,7 +138,7 @@ Inductive pc :=
 | PDone (r : result)
 | PFail.                 (* Lock returned an error *)
 
-Inductive label := LLocalLock | LPut | LAcquire | LTimeout | LExpired | LCs | LEtcdUnlock | LLocalUnlock | LGet | LRegrant.
+Inductive label := LLocalLock | LPut | LAcquire | LTimeout | LExpired | LCs | LEtcdUnlock | LLocalUnlock | LGet | LRegrant | LFault.
 
 Record state := {
   queue : list mid;                    (* lock keys of the members, in create-revision order *)
@@ -239,6 +243,9 @@ Definition step (q : quirks) (cfg : tid -> thr) (s : state) (t : tid) (l : label
         Some {| queue := queue s; local := upd2 (local s) m h None; pcs := upd (pcs s) t PFail;
                 reg := reg s; objs := objs s; ver := ver s; log := log s |}
   | LCs, PCs k => cs_step s t (t_req th) k
+  | LFault, PCs k =>         (* the cluster operation of handler step k fails: ClusterPanic, the deferred
+                                Unlock runs, nothing further is written (in particular no version) *)
+      if is_mut (t_req th) && Nat.leb k 3 then Some (finish s t (t_req th) (RErr (Nat.leb 2 k))) else None
   | LEtcdUnlock, PEnd r =>
       Some {| queue := remove_m m (queue s); local := local s; pcs := upd (pcs s) t (PUnl r);
               reg := reg s; objs := objs s; ver := ver s; log := log s |}
@@ -263,6 +270,10 @@ Fixpoint run (q : quirks) (cfg : tid -> thr) (s : state) (sched : list (tid * la
                       end
   end.
 
+(** life of a mutation whose handler step [c] (0..3) hits a failing cluster operation *)
+Definition full_fault (t : tid) (c : nat) : list (tid * label) :=
+  [(t, LLocalLock); (t, LPut); (t, LAcquire)] ++ repeat (t, LCs) c ++ [(t, LFault); (t, LEtcdUnlock); (t, LLocalUnlock)].
+
 (** between a successful Lock and the start of the matching Unlock *)
 Definition in_cs (p : pc) : bool := match p with PCs _ | PEnd _ => true | _ => false end.
 
@@ -282,14 +293,35 @@ Definition e_tid (e : entry) : tid := fst (fst e).
 Definition is_ok (e : entry) : bool := match e_res e with ROk _ _ => true | _ => false end.
 Definition ver_of (e : entry) : Z := match e_res e with ROk _ v => v | _ => 0 end.
 
-Definition replay (st : store) (l : list req) : store := fold_left spec_apply l st.
+(** effect of one decided entry on the store: a success applies the request and bumps the version,
+    409/400/404 nothing, a handler that was cut short by a failed cluster operation leaves its object
+    write (if already done) and no version bump *)
+Definition entry_apply (st : store) (e : entry) : store :=
+  match e_res e with
+  | RErr true => (apply_objs (e_req e) (fst st), snd st)
+  | RErr false => st
+  | _ => spec_apply st (e_req e)
+  end.
+
+Definition replay (st : store) (l : list entry) : store := fold_left entry_apply l st.
+
+Definition entry_ok (st : store) (e : entry) : Prop :=
+  match e_res e with
+  | RErr true => precheck (fst st) (e_req e) = None   (* it wrote only after passing the check *)
+  | RErr false => True
+  | r => r = spec_result st (e_req e)
+  end.
 
 (** every logged result is the one the sequential specification gives at that point *)
 Fixpoint legal (st : store) (l : list entry) : Prop :=
   match l with
   | [] => True
-  | e :: t => e_res e = spec_result st (e_req e) /\ is_mut (e_req e) = true /\ legal (spec_apply st (e_req e)) t
+  | e :: t => entry_ok st e /\ is_mut (e_req e) = true /\ legal (entry_apply st e) t
   end.
+
+(** entries that changed the store *)
+Definition has_effect (e : entry) : bool :=
+  match e_res e with ROk _ _ => true | RErr true => true | _ => false end.
 
 Fixpoint zseq (a : Z) (n : nat) : list Z :=
   match n with O => [] | S n' => a :: zseq (a + 1) n' end.
